@@ -197,14 +197,15 @@ Definition svc_template (sd : sdef) : svc :=
 
 (** [service.build()] as [Profile.__init__] calls it: PrimaryService._build clones the
     characteristics and include definitions, StandardService._build instantiates the class
-    again, SecondaryService._build re-uses the characteristic objects. *)
+    again, SecondaryService._build clones the characteristics.  Every path creates fresh
+    objects: nothing of the template is shared with the built service. *)
 Definition svc_build (sd : sdef) (t : svc) : svc :=
   match sd_kind sd with
   | SKprimary =>
       let s1 := fold_left svc_add_char (map chr_clone (s_chars t)) (empty_svc true (s_uuid t)) in
       fold_left svc_add_incl (map (fun i => mkI 0 (i_uuid i)) (s_incls t)) s1
   | SKstandard => svc_template sd
-  | SKsecondary => fold_left svc_add_char (s_chars t) (empty_svc false (s_uuid t))
+  | SKsecondary => fold_left svc_add_char (map chr_clone (s_chars t)) (empty_svc false (s_uuid t))
   end.
 
 (** * Attribute database *)
@@ -370,9 +371,12 @@ Fixpoint run (p : profile) (ops : list op) : outcome :=
   | o :: r => match step p o with Done q => run q r | Raised e => Raised e end
   end.
 
-(** [Profile.__init__] on a class declaring the services [sds] (in attribute-name order). *)
-Definition build (start : N) (sds : list sdef) : profile :=
-  fold_left (fun p sd => add_service p (svc_build sd (svc_template sd))) sds (empty_profile start).
+(** [Profile.__init__] on a class declaring the services [sds] (in attribute-name order).
+    [build_from n]: the objects created get the identities n, n+1, ... (a second instance
+    of a class is built from the identities the first one left unused). *)
+Definition build_from (n : N) (start : N) (sds : list sdef) : profile :=
+  fold_left (fun p sd => add_service p (svc_build sd (svc_template sd))) sds (mkP start start n [] [] []).
+Definition build (start : N) (sds : list sdef) : profile := build_from 0 start sds.
 
 (** * Observation: the attribute database with every reference resolved *)
 
@@ -664,7 +668,9 @@ Definition db_order_eqb (p : profile) (db : list (N * N * N)) : bool :=
 (** A whole case: definitions, operations, and everything the implementation showed. *)
 Record ccase := mkCase {
   k_start : N; k_defs : list sdef; k_ops : list op;
-  k_build : lightobs; k_steps : list lightobs;
+  k_build : lightobs;
+  k_again : list (N * lightobs);        (* further instances of the same class: start handle, what they show *)
+  k_steps : list lightobs;
   k_final : list (N * attr); k_look : lookobs;
   k_export : list jsvc;
   (* the re-imported profile: its export, its attribute dict in iteration order, its lookups *)
@@ -675,6 +681,7 @@ Record ccase := mkCase {
 Definition check_case (c : ccase) : bool :=
   let p0 := build (k_start c) (k_defs c) in
   light_eqb p0 (k_build c)
+  && forallb (fun a => light_eqb (build (fst a) (k_defs c)) (snd a)) (k_again c)
   && match run_check p0 (k_ops c) (k_steps c) with
      | None => false
      | Some p =>
